@@ -76,6 +76,13 @@ def _sqrt(a):
     return _real(a).sqrt()
 
 
+def _hypot(a, b):
+    """IEEE hypot: +inf as soon as one argument is infinite (even if the other is NaN), else NaN-propagating"""
+    a, b = _real(a), _real(b)
+    base = (a * a + b * b).sqrt()
+    return core.sreal_ite(Or(a.is_inf(), b.is_inf()), core.SReal(0, pinf=True), base)
+
+
 def _abs(a):
     a = _lift_num(a)
     if isinstance(a, SInt):
@@ -131,6 +138,7 @@ UFUNCS = {
     'absolute': _abs,
     'fabs': lambda a: abs(_real(a)),
     'sqrt': _sqrt,
+    'hypot': _hypot,
     'square': _square,
     'power': _power,
     'less': _cmp(lambda a, b: a < b),
